@@ -68,8 +68,7 @@ fn programs(prop: Prop, tier: Tier) -> Vec<Program> {
                 "zcrst.d@0",
                 "zcux.t@0",
                 "zcerr.d@0+recv.d@1",
-                "zcerr.t@0+zcerr.c@0",
-                "zcrst.c@0+zcux.d@1",
+                "zcerr.t@0+zcrst.c@1",
             ] {
                 v.push(p(s, 1));
             }
@@ -91,6 +90,8 @@ fn programs(prop: Prop, tier: Tier) -> Vec<Program> {
                     "zcux.d@0",
                     "zcux.c@0",
                     "zcrst.d@0+zcrst.d@0",
+                    "zcerr.t@0+zcerr.c@0",
+                    "zcrst.c@0+zcux.d@1",
                     "recv.t@0+zcrst.c@1",
                     "zcux.c@0+job.d@1",
                     "zc.d@0+zcerr.d@1",
@@ -215,7 +216,7 @@ fn finish_exec(mut w: World, points: Vec<(u32, u32)>, diverged: bool, panic: Opt
         });
     }
     let sig = w.signature();
-    Exec {
+    let e = Exec {
         steps: w.steps.clone(),
         points,
         diverged,
@@ -223,7 +224,14 @@ fn finish_exec(mut w: World, points: Vec<(u32, u32)>, diverged: bool, panic: Opt
         fails: std::mem::take(&mut w.fails),
         obs: std::mem::take(&mut w.obs),
         reached: std::mem::take(&mut w.reached),
+    };
+    if panic.as_ref().is_some_and(|p| !p.starts_with("harness")) {
+        // compio panicked in the middle of a step: its runtime, futures and tokens are in an
+        // unknown state, and running their destructors here (outside `catch`) could panic again
+        // and take the worker down with a verdict-less exit; they are leaked instead
+        w.abandon();
     }
+    e
 }
 
 /// Runs one execution: follows `prefix` (choice indices into the enabled sets), then always the
